@@ -11,7 +11,7 @@ fn table() -> &'static (Vec<(&'static str, &'static str, RandomFn)>, Known) {
         // VERIF_FUZZ_PROP restricts the campaign to the sub-checks of one property
         let only = std::env::var("VERIF_FUZZ_PROP").ok();
         let v = subs.iter().filter(|s| only.as_deref().map(|p| p == s.prop).unwrap_or(true)).filter_map(|s| match s.kind { Kind::Random { f, .. } => Some((s.prop, s.name, f)), _ => None }).collect();
-        (v, Known::load(&vcore::engine::verif_root()))
+        (v, Known::load(&vcore::engine::input_root()))
     })
 }
 
